@@ -695,6 +695,12 @@ static bool run_scope(Ctx& cx, const Opts& opts) {
     // ------------------------------------------------------------------ rectilinear polygons: n distinct lattice points, edges alternately
     // horizontal / vertical (both phases, every start vertex), simple and self-intersecting: notches, U- and C-shapes hugging the rectangle
     std::vector<P> board = lattice(sub, sub, STEP_L);
+    // "stretch": the last lattice column (sx) / row (sy) is moved outwards, so that shapes are lopsided: the centre of a path's
+    // bounding box then differs from the centre of the rectangle it hugs
+    { i64 sx = a.i("sx", 0), sy = a.i("sy", 0), last = (i64)(sub - 1) * STEP_L;
+      auto fx = [&](i64 c) { return c >= last ? c + sx : c; }; auto fy = [&](i64 c) { return c >= last ? c + sy : c; };
+      for (auto& q : board) { q.x = fx(q.x); q.y = fy(q.y); }
+      for (auto& R : rects) { R.l = fx(R.l); R.r = fx(R.r); R.t = fy(R.t); R.b = fy(R.b); } }
     for (int n = nmin; n <= nmax && done; n += 2) {
       bool go = true;
       for (int type = 0; type < 2 && go; ++type) {
@@ -724,7 +730,7 @@ static bool run_scope(Ctx& cx, const Opts& opts) {
         rec();
       }
       if (!go) done = false;
-      else rep.bounds_completed.push_back("rectil n=" + std::to_string(n) + " board=" + std::to_string(sub) + "x" + std::to_string(sub) + " all-starts rects=" + std::to_string(rects.size()));
+      else rep.bounds_completed.push_back("rectil n=" + std::to_string(n) + " board=" + std::to_string(sub) + "x" + std::to_string(sub) + " all-starts rects=" + std::to_string(rects.size()) + (a.i("sx", 0) || a.i("sy", 0) ? " last column/row moved out by " + std::to_string(a.i("sx", 0)) + "/" + std::to_string(a.i("sy", 0)) : std::string()));
     }
   } else if (scope == "laps") {
     // ------------------------------------------------------------------ rings around a central rectangle, k laps
@@ -798,6 +804,7 @@ static std::vector<Opts> plan(const std::string& name) {
     p.push_back({{"scope", "pairs"}, {"nmin", "3"}, {"nmax", "4"}, {"cyclic", "1"}, {"wo", "0"}, {"ws", "40"}, {"rects", "core"}});
     p.push_back({{"scope", "pairs"}, {"nmin", "3"}, {"nmax", "4"}, {"cyclic", "1"}, {"wo", "20"}, {"ws", "20"}, {"rects", "30,30 50,50;20,20 60,60"}});
     p.push_back({{"scope", "rectil"}, {"nmin", "4"}, {"nmax", "8"}, {"sub", "4"}, {"rects", RREC44}});
+    p.push_back({{"scope", "rectil"}, {"nmin", "8"}, {"nmax", "8"}, {"sub", "4"}, {"rects", "20,20 40,40;20,10 40,30;10,20 30,40"}, {"sx", "140"}, {"sy", "60"}});
     p.push_back({{"scope", "walks"}, {"len", "5"}, {"wo", "20"}, {"ws", "20"}, {"rects", RB20}});
     p.push_back({{"scope", "walks"}, {"len", "5"}, {"wo", "0"}, {"ws", "40"}, {"rects", RB40}});
     p.push_back({{"scope", "poly"}, {"nmin", "3"}, {"nmax", "3"}, {"cyclic", "0"}, {"rects", "quick"}, {"probes", "0"}});
@@ -808,6 +815,7 @@ static std::vector<Opts> plan(const std::string& name) {
     p.push_back({{"scope", "pairs"}, {"nmin", "3"}, {"nmax", "4"}, {"cyclic", "0"}, {"wo", "0"}, {"ws", "40"}, {"rects", "core"}});
     p.push_back({{"scope", "pairs"}, {"nmin", "3"}, {"nmax", "4"}, {"cyclic", "0"}, {"wo", "20"}, {"ws", "20"}, {"rects", "30,30 50,50;20,20 60,60"}});
     p.push_back({{"scope", "rectil"}, {"nmin", "4"}, {"nmax", "10"}, {"sub", "4"}, {"rects", RREC44}});
+    p.push_back({{"scope", "rectil"}, {"nmin", "4"}, {"nmax", "10"}, {"sub", "4"}, {"rects", RREC44}, {"sx", "140"}, {"sy", "60"}});
     p.push_back({{"scope", "rectil"}, {"nmin", "4"}, {"nmax", "8"}, {"sub", "5"}, {"rects", "full"}});
     p.push_back({{"scope", "walks"}, {"len", "6"}, {"wo", "0"}, {"ws", "40"}, {"rects", RB40}});
     p.push_back({{"scope", "poly"}, {"nmin", "3"}, {"nmax", "4"}, {"cyclic", "0"}, {"rects", "quick"}, {"probes", "0"}});
